@@ -324,6 +324,12 @@ func (p *Prefix) Apply(ra *ndp.RouterAdvertisement) error {
 func (p *Prefix) current() ([]netip.Prefix, error) {
 	// Expand ::/N to all unique, non-link local prefixes with matching length
 	// on this interface.
+	if p.Addrs == nil {
+		// Prepare has not run yet, e.g. metrics scraped before the interface
+		// was initialized.
+		return nil, errors.New("prefix plugin has not been prepared")
+	}
+
 	addrs, err := p.Addrs()
 	if err != nil {
 		return nil, fmt.Errorf("failed to fetch IP addresses: %v", err)
@@ -403,7 +409,13 @@ func (p *Prefix) lifetimes() (valid, pref time.Duration) {
 		panic("plugin: cannot calculate deprecated Prefix lifetimes with zero epoch")
 	}
 
-	now := p.TimeNow()
+	var now time.Time
+	if p.TimeNow != nil {
+		now = p.TimeNow()
+	} else {
+		// Prepare has not run yet: use the real system time.
+		now = time.Now()
+	}
 
 	var (
 		validT = p.Epoch.Add(p.ValidLifetime)
@@ -520,6 +532,12 @@ func (r *Route) current() ([]netip.Prefix, error) {
 	//
 	// TODO(mdlayher): if we choose to accept syntax other than ::/0, we'll have
 	// to update this logic.
+	if r.Routes == nil {
+		// Prepare has not run yet, e.g. metrics scraped before the interface
+		// was initialized.
+		return nil, errors.New("route plugin has not been prepared")
+	}
+
 	routes, err := r.Routes()
 	if err != nil {
 		return nil, err
@@ -591,7 +609,14 @@ func (r *Route) lifetime() time.Duration {
 		panic("plugin: cannot calculate deprecated Route lifetimes with zero epoch")
 	}
 
-	now := r.TimeNow()
+	var now time.Time
+	if r.TimeNow != nil {
+		now = r.TimeNow()
+	} else {
+		// Prepare has not run yet: use the real system time.
+		now = time.Now()
+	}
+
 	lt := r.Epoch.Add(r.Lifetime)
 
 	if now.Equal(lt) || now.After(lt) {
@@ -687,6 +712,12 @@ func (r *RDNSS) current() (netip.Addr, error) {
 	// Expand :: to one of the IPv6 addresses on this interface. The "best"
 	// address will be chosen by comparing all addresses on the interface for
 	// desired properties.
+	if r.Addrs == nil {
+		// Prepare has not run yet, e.g. metrics scraped before the interface
+		// was initialized.
+		return netip.Addr{}, errors.New("RDNSS plugin has not been prepared")
+	}
+
 	addrs, err := r.Addrs()
 	if err != nil {
 		return netip.Addr{}, fmt.Errorf("failed to fetch IP addresses: %v", err)
